@@ -330,3 +330,39 @@ def restart_wait_jobs(start_run=1):
                             jobs.append({"run": run, "scen": sc, "sched": s, "drain": True, "tag": "directed:restart_wait"})
                             run += 1
     return jobs
+
+
+# Directed schedules: pay ends without a final answer while a part is still pending, then more time passes than the
+# payment timeout before the node is asked to serve the plugin's waitsendpay (which it can only do if the plugin
+# asked for a timeout), and only then the part resolves.
+def wait_timeout_jobs(start_run=1):
+    jobs = []
+    run = start_run
+    ds = lambda key: {"kind": "ds", "hash": "h1", "key": key}
+    for paytimeout in (1, 2):
+        for outcome in ("pending", "error", "failed_warn", "transport", "nocode", "pending_nopre"):
+            for nparts in (1, 2):
+                for final in ("complete", "failed"):
+                    cfg = dict(CFG_A); cfg["mpp"] = 3; cfg["paytimeout"] = paytimeout
+                    p = pool(cfg, 10)
+                    sc = {"cfg": cfg, "invs": invs_for(10), "htlcs": [p["good"][2]], "probe": [p["good"][2]]}
+                    s = [{"a": "htlc", "i": 1},
+                         {"a": "exec", "sel": {"kind": "listds", "hash": "h1"}, "fault": "none"}, {"a": "deliver", "sel": {"kind": "listds", "hash": "h1"}},
+                         {"a": "exec", "sel": ds("state"), "fault": "none"}, {"a": "deliver", "sel": ds("state")},
+                         {"a": "exec", "sel": ds("att"), "fault": "none"}, {"a": "deliver", "sel": ds("att")},
+                         {"a": "exec", "sel": {"kind": "pay", "hash": "h1"}, "fault": "none"}]
+                    s += [{"a": "paypart", "sel": {"kind": "pay", "hash": "h1"}}] * nparts
+                    s += [{"a": "payreturn", "sel": {"kind": "pay", "hash": "h1"}, "outcome": outcome}, {"a": "deliver", "sel": {"kind": "pay", "hash": "h1"}},
+                          {"a": "exec", "sel": {"kind": "lists", "hash": "h1", "status": "pending"}, "fault": "none"},
+                          {"a": "deliver", "sel": {"kind": "lists", "hash": "h1", "status": "pending"}},
+                          {"a": "exec", "sel": {"kind": "lists", "hash": "h1", "status": "complete"}, "fault": "none"},
+                          {"a": "deliver", "sel": {"kind": "lists", "hash": "h1", "status": "complete"}}]
+                    s += [{"a": "tick"}] * (paytimeout + 1)
+                    for part in range(1, nparts + 1):
+                        s += [{"a": "exec", "sel": {"kind": "wait", "hash": "h1", "part": part}, "fault": "none"},
+                              {"a": "deliver", "sel": {"kind": "wait", "hash": "h1", "part": part}}]
+                    s += [{"a": "tick"}]
+                    s += [{"a": "partdone", "p": part, "how": final, "code": 203} for part in range(1, nparts + 1)]
+                    jobs.append({"run": run, "scen": sc, "sched": s, "drain": True, "tag": "directed:wait_timeout"})
+                    run += 1
+    return jobs
